@@ -11,17 +11,24 @@
  */
 #include "vf.h"
 #include <string.h>
+#include "vf.h"
 #ifndef VF_N
 #define VF_N 176
 #endif
 #ifndef VF_K
 #define VF_K 2
 #endif
+/* contract stub of strnlen (it reads at most [s, s+n)): both ends of that range are read here, so that a range reaching
+   outside the data is reported, and ANY length <= n is returned (a superset of what the real function can return) */
+static volatile char vf_touch;
 size_t strnlen(const char* s, size_t n)
 {
-  size_t i = 0;
-  while (i < n && s[i] != 0) i++;
-  return i;
+  if (n == 0) return 0;
+  vf_touch = s[0];
+  vf_touch = s[n - 1];
+  size_t r = (size_t) vf_u32();
+  VF_ASSUME(r <= n);
+  return r;
 }
 #include "modules/pe/pe_utils.c"
 #include "modules/pe/pe.c"
